@@ -188,7 +188,12 @@ impl<T: Bridge + Clone> Bridge for std::borrow::Cow<'static, T> {
     }
 }
 
-fn seq_to_val<'a, T: Bridge + 'a>(it: impl Iterator<Item = &'a T>) -> Val {
+/// number of zero-sized elements beyond which a sequence is summarised instead of listed
+pub const ZST_SUMMARY: usize = 1 << 16;
+fn seq_to_val<'a, T: Bridge + 'a>(it: impl ExactSizeIterator<Item = &'a T>) -> Val {
+    if std::mem::size_of::<T>() == 0 && it.len() > ZST_SUMMARY {
+        return Val::Seq(vec![Val::Str(format!("<{} zero-sized elements>", it.len()))]);
+    }
     Val::Seq(it.map(|x| x.to_val()).collect())
 }
 fn seq_items(v: &Val) -> &[Val] {
@@ -202,7 +207,10 @@ macro_rules! seq {
         impl<T: Bridge $(+ $bound)*> Bridge for $t {
             fn to_val(&self) -> Val { seq_to_val(self.iter()) }
             fn from_val(v: &Val) -> Self { seq_items(v).iter().map(T::from_val).collect() }
-            fn raw_check(&self, out: &mut Vec<String>) { for x in self.iter() { x.raw_check(out); if out.len() > 8 { break; } } }
+            fn raw_check(&self, out: &mut Vec<String>) {
+                let cap = if std::mem::size_of::<T>() == 0 { 1 << 12 } else { usize::MAX };
+                for x in self.iter().take(cap) { x.raw_check(out); if out.len() > 8 { break; } }
+            }
         }
     };
 }
